@@ -100,6 +100,7 @@ pub struct Rt {
     forced: Option<usize>,
     pub preempted_in_poll: bool,
     pub in_callback: bool,
+    pub blocked_workers: u32,
 }
 
 thread_local! {
@@ -204,6 +205,7 @@ impl Rt {
             forced: None,
             preempted_in_poll: false,
             in_callback: false,
+            blocked_workers: 0,
         }
     }
 
@@ -585,22 +587,32 @@ pub fn poll_sched_point(cx: &mut Context<'_>, site: &str) -> Poll<()> {
 }
 
 pub fn block_on<F: Future>(fut: F) -> F::Output {
+    // A nested call (from inside a task) blocks that task's worker thread: this frame drives the
+    // inner future itself; other tasks run only while a worker is left (knob `workers`).
     let nested = with(|rt| rt.active);
-    if nested {
-        panic!("zsim: nested block_on is not supported");
-    }
     let mut fut = std::pin::pin!(fut);
-    let root_waker = with(|rt| {
-        rt.active = true;
-        let id = new_task(rt, None, "root");
-        assert_eq!(id, 0, "zsim: block_on must create task 0");
-        rt.ev("start", &format!("seed={} strategy={:?}", rt.plan.seed, rt.plan.strategy).replace(' ', ""));
-        for i in 0..rt.plan.events.len() {
-            rt.add_event(EvKind::Plan(i));
+    let (my_id, my_waker, outer_current) = with(|rt| {
+        if !nested {
+            rt.active = true;
+            let id = new_task(rt, None, "root");
+            assert_eq!(id, 0, "zsim: block_on must create task 0");
+            rt.ev("start", &format!("seed={} strategy={:?}", rt.plan.seed, rt.plan.strategy).replace(' ', ""));
+            for i in 0..rt.plan.events.len() {
+                rt.add_event(EvKind::Plan(i));
+            }
+            let w = rt.tasks[0].waker.clone();
+            w.wake_by_ref();
+            (0usize, w, None)
+        } else {
+            let outer = rt.current;
+            let id = new_task(rt, None, "nested-block_on");
+            rt.blocked_workers += 1;
+            rt.probe("nested-block_on");
+            rt.evv("block_on-enter", &format!("t{} blocked-workers={}", id, rt.blocked_workers));
+            let w = rt.tasks[id].waker.clone();
+            w.wake_by_ref();
+            (id, w, outer)
         }
-        let w = rt.tasks[0].waker.clone();
-        w.wake_by_ref();
-        w
     });
     let budget = with(|rt| if rt.plan.knobs.step_budget == 0 { 2_000_000 } else { rt.plan.knobs.step_budget });
     loop {
@@ -608,10 +620,14 @@ pub fn block_on<F: Future>(fut: F) -> F::Output {
         let cand = with(|rt| {
             rt.drain_wakes();
             loop {
-                // candidates: ready tasks in FIFO order (deduplicated), then enabled events by id
+                // candidates: ready tasks in FIFO order (deduplicated), then enabled events by id.
+                // Tasks whose future is being polled further up the stack cannot run here; in a
+                // nested frame other tasks need a free worker.
+                let others_allowed = !nested || rt.plan.knobs.workers == 0 || rt.blocked_workers < rt.plan.knobs.workers;
                 let mut cands: Vec<Cand> = vec![];
                 for &t in rt.ready.iter() {
-                    if !rt.tasks[t].done && !cands.iter().any(|c| matches!(c, Cand::Task(x) if *x == t)) {
+                    let runnable_here = t == my_id || (others_allowed && rt.tasks[t].fut.is_some());
+                    if runnable_here && !rt.tasks[t].done && !cands.iter().any(|c| matches!(c, Cand::Task(x) if *x == t)) {
                         cands.push(Cand::Task(t));
                     }
                 }
@@ -651,7 +667,8 @@ pub fn block_on<F: Future>(fut: F) -> F::Output {
             Some(c) => c,
             None => {
                 with(|rt| {
-                    rt.ev("stall", "");
+                    let starved = rt.ready.iter().any(|&t| !rt.tasks[t].done && rt.tasks[t].fut.is_some());
+                    rt.ev("stall", if starved { "ready-tasks-starved-by-blocked-workers" } else { "" });
                     rt.write_footer("stall");
                     rt.trace.flush();
                 });
@@ -672,11 +689,17 @@ pub fn block_on<F: Future>(fut: F) -> F::Output {
                     rt.evv("run", "");
                     rt.tasks[id].fut.take()
                 });
-                if id == 0 {
-                    let mut cx = Context::from_waker(&root_waker);
+                if id == my_id {
+                    let mut cx = Context::from_waker(&my_waker);
                     if let Poll::Ready(v) = fut.as_mut().poll(&mut cx) {
                         with(|rt| {
-                            rt.tasks[0].done = true;
+                            rt.tasks[my_id].done = true;
+                            if nested {
+                                rt.blocked_workers -= 1;
+                                rt.evv("block_on-leave", &format!("t{}", my_id));
+                                rt.current = outer_current;
+                                return;
+                            }
                             rt.root_done = true;
                             rt.current = None;
                             rt.ev("main-returned", "");
@@ -696,7 +719,7 @@ pub fn block_on<F: Future>(fut: F) -> F::Output {
                     with(|rt| {
                         let k = if rt.preempted_in_poll { "yield" } else { "park" };
                         rt.evv(k, "");
-                        rt.current = None
+                        rt.current = outer_current
                     });
                 } else if let Some(mut f) = fut_opt {
                     let w = with(|rt| rt.tasks[id].waker.clone());
@@ -716,10 +739,10 @@ pub fn block_on<F: Future>(fut: F) -> F::Output {
                                 rt.evv(k, "");
                             }
                         }
-                        rt.current = None;
+                        rt.current = outer_current;
                     });
                 } else {
-                    with(|rt| rt.current = None);
+                    with(|rt| rt.current = outer_current);
                 }
             }
             Cand::Event(idx) => {
